@@ -60,6 +60,8 @@ var c14Hostile = []string{
 	`lam = (x, y) => x + y * 2.0; lam1 = x => x || false; lam0 = () => 1.0; lamr = () => {return 3}`,
 	`lamm = x => {{"a": 1, "b": 2}[x]}; lamd = (a, b) => {{"p": a}.p + b}; lamm2 = () => {{"a": 1}}; lamn = a => (b => a + b); lams = x => {{"a": [1, 2, 3]}.a[0:x]}; lamq = x => {{1: 2}[1] == x}`,
 	`func ql(x) {"\"" + x + "\"\n"}; qs = () => "a\"b\nc"; qt = x => "it's \"" + x + "\"\ttab"; qn = () => "line1\nline2"; qb = () => "back` + "`" + `tick\"q\"\n"`,
+	`mmin = {(-9223372036854775807 - 1): "min", 5: {(-9223372036854775807 - 1): [(-9223372036854775807 - 1)]}}; amin = [{(-9223372036854775807 - 1): 1.0}]`,
+	`ge = [1, 2]; gzz = 0.0; gmm = {"k": 1}`,
 	`func fal(a) {a + 1}; gal = fal; hal = gal`,
 	`func fz(x) {x + 1}; gz = fz; fz = 3`,
 	`func fy(x) {x + 1}; gy = fy; del(fy)`,
@@ -317,10 +319,24 @@ func (p c14) autoCycle(c *fw.Ctx, build []string) (kind, detail string) {
 	if setter {
 		second2 = "zz_setgx()" // the only change of this session is a global assigned from inside a function
 	}
+	retype := strings.Contains(string(first), "\nge=[1,2]\n")
+	if retype && !setter {
+		// the only changes are re-bindings to values that compare equal but are of another type or sign
+		second2 = "ge = [1.0, 2.0]; gzz = -0.0; gmm = {\"k\": 1.0}"
+	}
 	res, errs, _ := repl.EvalStringWithOption(context.Background(), opts, second2)
 	_ = res
 	if len(errs) > 0 {
 		return "autoload-error", fmt.Sprintf("evaluating after auto-load failed: %v", errs)
+	}
+	if retype && !setter {
+		saved, _ := os.ReadFile(".gr")
+		for _, want := range []string{"\nge=[1.0,2.0]\n", "\ngzz=-0.0\n", "\ngmm={\"k\":1.0}\n"} {
+			if !strings.Contains(string(saved), want) {
+				return "autosave-skipped", fmt.Sprintf("a session that re-bound globals to equal values of another type did not save %q: %s", want, clip(string(saved)))
+			}
+		}
+		return "", ""
 	}
 	if setter {
 		saved, _ := os.ReadFile(".gr")
